@@ -1,13 +1,13 @@
 SPECIFICATION Spec
 CONSTANTS
-  WorkerCpus <- B_Workers
-  WorkerGroup <- B_Groups
-  Menu <- B_Menu
-  Classes <- B_Classes
+  WorkerCpus <- E_Workers
+  WorkerGroup <- E_Groups
+  Menu <- E_Menu
+  Classes <- E_Classes
   MaxLosses = 1
-  MaxCancels = 0
+  MaxCancels = 1
   MaxFails = 1
-  MaxLaunchFails = 1
+  MaxLaunchFails = 0
   PfReserve = 0
   PfMax = 1
   Eager = TRUE
